@@ -19,19 +19,33 @@ rc_with, out_with = run(["/venv/bin/python", demo], cwd=wt)
 subprocess.run(["git", "-C", wt, "stash", "-q", "--", "pygamma_agreement"])
 rc_without, _ = run(["/venv/bin/python", demo], cwd=wt)
 subprocess.run(["git", "-C", wt, "stash", "pop", "-q"])
-assert subprocess.run(["git", "-C", "/repo", "status", "--porcelain", "--untracked-files=no"], capture_output=True, text=True).stdout == "", "/repo not clean"
-subprocess.run(["git", "-C", "/repo", "apply", f"{out}/patch.diff"], check=True)
-try:
-    rc_check, out_check = run(["python3-vt", "-m", "pyvc.check", prop], cwd="/verif",
-                              env={**os.environ, "VERIF_EVIDENCE_DIR": "/tmp/pgverif-seed-evidence"})
-finally:
-    subprocess.run(["git", "-C", "/repo", "checkout", "--", "."], check=True)
+if os.environ.get("KEEP_SEED_SCRATCH"):
+    # the change is applied to a scratch copy of /repo's working tree (other checks may be reading /repo right now); same check, VERIF_REPO
+    import tempfile
+    d = tempfile.mkdtemp(prefix="pgverif-seed-", dir="/tmp")
+    try:
+        subprocess.run(["rsync", "-a", "--exclude", ".git", "/repo/", d + "/"], check=True)
+        subprocess.run(["patch", "-p1", "-s", "-d", d, "-i", f"{out}/patch.diff"], check=True)
+        rc_check, out_check = run(["python3-vt", "-m", "pyvc.check", prop], cwd="/verif",
+                                  env={**os.environ, "VERIF_REPO": d, "VERIF_EVIDENCE_DIR": "/tmp/pgverif-seed-evidence"})
+    finally:
+        shutil.rmtree(d, ignore_errors=True)
+    how = "patch applied to a scratch copy of /repo (VERIF_REPO); quick check"
+else:
+    assert subprocess.run(["git", "-C", "/repo", "status", "--porcelain", "--untracked-files=no"], capture_output=True, text=True).stdout == "", "/repo not clean"
+    subprocess.run(["git", "-C", "/repo", "apply", f"{out}/patch.diff"], check=True)
+    try:
+        rc_check, out_check = run(["python3-vt", "-m", "pyvc.check", prop], cwd="/verif",
+                                  env={**os.environ, "VERIF_EVIDENCE_DIR": "/tmp/pgverif-seed-evidence"})
+    finally:
+        subprocess.run(["git", "-C", "/repo", "checkout", "--", "."], check=True)
+    how = "git -C /repo apply patch.diff; quick check; git -C /repo checkout -- ."
 lines = [l for l in out_check.split("\n") if l.startswith(("VIOLATION", "UNDECIDED", "  failed obligation", prop + ":"))]
 meta = {"seed": sid, "breaks_property": prop, "needs_to_manifest": needs,
         "demo": {"exit_with_change": rc_with, "exit_without_change": rc_without, "output_with_change": out_with[-600:]},
         "check": {"cmd": f"python3-vt -m pyvc.check {prop}", "exit": rc_check, "lines": lines},
         "detected": rc_check == 1,
-        "ran": ["demo in the sub-agent's worktree with and without the change", "git -C /repo apply patch.diff; quick check; git -C /repo checkout -- ."],
+        "ran": ["demo in the sub-agent's worktree with and without the change", how],
         "tests": "existing suite run by the sub-agent with the change applied (see SEED_REPORT.md)"}
 json.dump(meta, open(f"{out}/meta.json", "w"), indent=1)
 print(json.dumps({k: meta[k] for k in ("seed", "detected")}), meta["demo"]["exit_with_change"], meta["demo"]["exit_without_change"])
